@@ -63,11 +63,11 @@ def handleLookup : List String → String
   | [k] => encOpt (lookupStmts tree (natsOf k))
   | _ => "bad-op"
 
-/-- argument description: `sg sp intent suffix extra isPtr isRef value conv isResult` joined by `:` -/
+/-- argument description: `sg sp intent suffix extra isPtr isRef value conv isResult isEnum` joined by `:` -/
 def decArg (s : String) : Option ArgDesc :=
   match s.splitOn ":" with
-  | [sg, sp, it, sf, ex, ip, ir, va, cv, rs] =>
-    some ⟨sg.toNat!, sp.toNat!, it.toNat!, sf.toNat!, natsOf ex, b01 ip, b01 ir, b01 va, cv.toNat!, b01 rs⟩
+  | [sg, sp, it, sf, ex, ip, ir, va, cv, rs, en] =>
+    some ⟨sg.toNat!, sp.toNat!, it.toNat!, sf.toNat!, natsOf ex, b01 ip, b01 ir, b01 va, cv.toNat!, b01 rs, b01 en⟩
   | _ => none
 
 def encArgPlan (d : ArgDesc) : String :=
@@ -87,7 +87,7 @@ def handleAsm : List String → String
       let re := selectEntry entries tree (fd.resKey vocab)
       let th := match w.this with | some ⟨true⟩ => "const" | some ⟨false⟩ => "mut" | none => "-"
       let rp := re.bufArgs.map (decodeProto false re)
-      let head := s!"this={th} res: e={encOpt ridx} call={encCallShape w.res.call} conv={encConv w.res.conv} caps={w.res.setCapsule} sback={w.res.structBack} ret={encRet w.res.ret} rproto={encList encProto rp} tail={encList encProto w.res.protoTail}"
+      let head := s!"this={th} res: e={encOpt ridx} call={encCallShape w.res.call} conv={encConv w.res.conv} caps={w.res.setCapsule} sback={w.res.structBack} clear={w.res.clearSelf} ret={encRet w.res.ret} rproto={encList encProto rp} tail={encList encProto w.res.protoTail}"
       " | ".intercalate (head :: as.map encArgPlan)
     | _, _, _ => "bad-op"
   | _ => "bad-op"
